@@ -98,8 +98,8 @@ PROPS["C14"] = dict(
 )
 
 PROPS["C19"] = dict(
-    suites=["c19"],
-    shards={"c19": 8},
+    suites=["c19", "c19a"],
+    shards={"c19": 8, "c19a": 2},
     lean_modules=["ServlinVerif.Props.C19"],
     audit="Audit/C19.lean",
     rule="set level: 800 (8000) random op sequences (1..8 ops over push / delete_oldest / delete_older_than / delete_oldest_while_over_max_len) "
@@ -110,8 +110,8 @@ PROPS["C19"] = dict(
          "(100 B..90 KB, ages 10..30 s or ~2 h), 100..700 (thorough: every 10th run 4000, every 50th 20000) events of 50 B..60 KiB, 0..3 restarts of the writer "
          "at random points; surviving files, their line numbers and sizes are compared with the model run on the same event sizes; "
          "directory total sampled every 16 events. Non-trivial = at least one file deleted or rotated.",
-    nontrivial=lambda tag, args, obs: (tag == "c19s" and re.search(r"(del|age|over)", args[1]) is not None) or (tag == "c19w" and obs.count("/") > 0),
-    klass=lambda tag, args, obs: tag + (":ops=%d" % (args[1].count(";") + 1) if tag == "c19s" else ":restarts=%d:age=%s:keepx=%s" % (args[4].count("|"), "on" if args[2] != "0" else "off", str(round(int(args[1]) / int(args[0]), 1)))),
+    nontrivial=lambda tag, args, obs: tag == "c19a" or (tag == "c19s" and re.search(r"(del|age|over)", args[1]) is not None) or (tag == "c19w" and obs.count("/") > 0),
+    klass=lambda tag, args, obs: "c19a:age-rotation-under-steady-traffic" if tag == "c19a" else tag + (":ops=%d" % (args[1].count(";") + 1) if tag == "c19s" else ":restarts=%d:age=%s:keepx=%s" % (args[4].count("|"), "on" if args[2] != "0" else "off", str(round(int(args[1]) / int(args[0]), 1)))),
     explanation="Model/LogFiles.lean: PrefixFileSet (files + running total; peek = first file with the smallest mtime) and the writer loop "
                 "(rotation decision, delete by age, delete oldest while over keep - current - event with saturating subtraction, append). "
                 "Theorems (all histories, all configurations): the two deletion loops never panic from consistent books and equal the "
@@ -372,7 +372,7 @@ PROPS["C17"] = dict(
          "parsed by the strict RFC 8259 parser Spec/JsonParser. Non-trivial = at least one tag.",
     nontrivial=lambda tag, args, obs: tag != "c17" or args[1] != "",
     klass=lambda tag, args, obs: "c19:lines-on-disk" if tag != "c17" else "c17:tags=%d" % min(len([x for x in args[1].split(",") if x]), 5),
-    shards={"c19": 8},
+    shards={"c19": 8, "c19a": 2},
     explanation="C17_string_roundtrip / C17_no_breakout: for every list of Unicode scalar values the escaped text is read back exactly by the RFC 8259 "
                 "string parser, which stops exactly at the serialiser's closing quote - no value or name can break out, add members or split the "
                 "line. C17_line (Props/C17Line.lean): for every tag list (arbitrary Unicode names and strings, all integers, booleans, null, "
